@@ -191,6 +191,8 @@ def wrappers():
 
 
 def randcs():
+    """`randC()` of every distribution header: `x = RandomTools::<sampler>(args) [+ shift]`, possibly
+    re-drawn while outside the bounds, returned as `x` or `x + shift`."""
     out = []
     d = os.path.join(REPO, "src/Bpp/Numeric/Prob")
     for fn in sorted(os.listdir(d)):
@@ -201,17 +203,25 @@ def randcs():
         if not m:
             continue
         body = m.group(1)
-        calls = re.findall(r"RandomTools::(rand\w+)\s*\(((?:[^()]|\([^()]*\))*)\)", body)
+        calls = re.findall(r"RandomTools::(rand\w+|giveRandomNumberBetweenZeroAndEntry)\s*\(((?:[^()]|\([^()]*\))*)\)(?:\s*\+\s*(\w+))?", body)
         if not calls:
             continue        # not a direct sampler (mixtures etc. delegate to other distributions)
-        if len(set((c[0], re.sub(r"\s+", "", c[1])) for c in calls)) != 1:
+        if len(set((c[0], re.sub(r"\s+", "", c[1]), c[2]) for c in calls)) != 1:
             raise Bad("randC of %s calls different samplers: %r" % (fn, calls))
-        callee, args = calls[0]
-        # what is returned: the sample itself, possibly after the rejection loop on the bounds / an offset
-        if not re.search(r"return\s+(x|x\s*\+\s*offset_|RandomTools::rand\w+\s*\(.*\))\s*;", body, flags=re.S):
-            raise Bad("randC of %s does not return the sample: %r" % (fn, body.strip()[:200]))
+        callee, args, shift_call = calls[0]
+        # the shape of the body: one draw, re-drawn while outside the bounds, returned (possibly shifted)
+        call = r"RandomTools::\w+\s*\((?:[^()]|\([^()]*\))*\)(?:\s*\+\s*\w+)?"
+        shape = re.fullmatch(r"\s*(?:double\s+x\s*=\s*" + call + r"\s*;\s*while\s*\(\s*!\s*intMinMax_->isCorrect\(x\)\s*\)\s*x\s*=\s*" + call +
+                             r"\s*;\s*return\s+x(?:\s*\+\s*(\w+))?\s*;|return\s+" + call + r"\s*;)\s*", body, flags=re.S)
+        if not shape:
+            raise Bad("randC of %s is not `draw; re-draw while outside the bounds; return`: %r" % (fn, body.strip()[:300]))
+        shift_ret = shape.group(1) or ""
+        if shift_call and shift_ret:
+            raise Bad("randC of %s shifts twice" % fn)
+        shift = shift_call or shift_ret
         a = [parse_expr(x, None) for x in split_args(args)]
-        out.append((fn[:-len("DiscreteDistribution.h")], "%s/%d" % (callee, len(a)), a))
+        sh = parse_expr(shift, None) if shift else "(.lit 0 1)"
+        out.append((fn[:-len("DiscreteDistribution.h")], "%s/%d" % (callee, len(a)), a, sh))
     return out
 
 
@@ -229,6 +239,12 @@ CMP_SITES = [
     ("hmm.first", "src/Bpp/Numeric/Hmm/AbstractHmmTransitionMatrix.cpp", r"prob -= eqFreq_\[i\];\s*if \(prob (<=?|>=?) 0\)"),
     ("hmm.next", "src/Bpp/Numeric/Hmm/AbstractHmmTransitionMatrix.cpp", r"prob -= row\[i\];\s*if \(prob (<=?|>=?) 0\)"),
     ("ContingencyTableTest.count", "src/Bpp/Numeric/Stat/ContingencyTableTest.cpp", r"if \(stat_rep (<=?|>=?) statistic_\)\s*count\+\+;"),
+    # the Monte-Carlo loop: initial count, start index, bound (how many tables are drawn) ...
+    ("ContingencyTableTest.loop", "src/Bpp/Numeric/Stat/ContingencyTableTest.cpp",
+     r"size_t count = 0;\s*ContingencyTableGenerator ctgen\(margin1_, margin2_\);\s*for \(unsigned int k = 0; k (<=?|>=?) nbPermutations; \+\+k\)\s*\{"),
+    # ... and the formula of the p-value (the site is only found if the text is exactly this one)
+    ("ContingencyTableTest.pvalue=(count+1)/(nbPermutations+1)", "src/Bpp/Numeric/Stat/ContingencyTableTest.cpp",
+     r"\}\s*pvalue_ = static_cast<double>\(count \+ 1\) (/) static_cast<double>\(nbPermutations \+ 1\);"),
 ]
 
 
@@ -262,7 +278,7 @@ def main():
     lines.append("]")
     lines.append("")
     lines.append("def randCs : List RandC := [")
-    lines.append(",\n".join('  ⟨"%s", "%s", [%s]⟩' % (d, c, ", ".join(a)) for (d, c, a) in rcs))
+    lines.append(",\n".join('  ⟨"%s", "%s", [%s], %s⟩' % (d, c, ", ".join(a), sh) for (d, c, a, sh) in rcs))
     lines.append("]")
     lines.append("")
     lines.append("/-- the comparison operator at each search loop / guard of the modelled code -/")
@@ -277,7 +293,7 @@ def main():
     if old != txt:
         open(OUT, "w").write(txt)
     print("wrappers: " + "; ".join("%s(%s) -> %s[%s]" % (n, ",".join(ps), fam, ", ".join(args)) for (n, ps, fam, args) in ws)
-          + " | randC: " + "; ".join("%s -> %s[%s]" % (d, c, ", ".join(a)) for (d, c, a) in rcs)
+          + " | randC: " + "; ".join("%s -> %s[%s] + %s" % (d, c, ", ".join(a), sh) for (d, c, a, sh) in rcs)
           + " | comparisons: " + "; ".join("%s %s" % (a, b) for (a, b) in cmps))
 
 
